@@ -253,11 +253,15 @@ pub struct SessionPlan {
     pub bloom_alt: Option<BloomCfg>,
     #[serde(default)]
     pub bloom_use_alt: bool,
+    /// the second configuration is "no bloom filter at all": blobs closed in those openings store an empty
+    /// placeholder that later openings (bloom on again) read back
+    #[serde(default)]
+    pub bloom_alt_off: bool,
 }
 
 impl SessionPlan {
     pub fn sequential(ops: Vec<Op>) -> Self {
-        SessionPlan { lazy_init: false, pre: vec![], clients: vec![ops], end: SessionEnd::Close, validate_data: None, ignore_corrupted: None, bloom_alt: None, bloom_use_alt: false }
+        SessionPlan { lazy_init: false, pre: vec![], clients: vec![ops], end: SessionEnd::Close, validate_data: None, ignore_corrupted: None, bloom_alt: None, bloom_use_alt: false, bloom_alt_off: false }
     }
 }
 
